@@ -26,3 +26,5 @@ mod subrange;
 mod reloc;
 #[cfg(kani)]
 mod wprim;
+#[cfg(kani)]
+mod uctx;
